@@ -43,3 +43,9 @@ C13_curie_nomatch_empty_prefix = _sig('C13/curie-nomatch-empty-prefix')
 
 C05_html_offsets_missing_node_metadata = _sig('C05/html-offsets-missing-node-metadata')
 C05_offsets_invalid_utf8_grapheme_panic = _sig('C05/offsets-invalid-utf8-grapheme-panic')
+C16_html_capture_whitespace_text_placement = _sig('C16/html-capture-whitespace-text-placement')
+C16_offsets_invalid_utf8_grapheme_panic = _sig('C16/offsets-invalid-utf8-grapheme-panic')
+C16_html_offsets_missing_node_metadata = _sig('C16/html-offsets-missing-node-metadata')
+C16_html_capture_bogus_comment_slice_bounds = _sig('C16/html-capture-bogus-comment-slice-bounds')
+C16_html_capture_abutting_attributes = _sig('C16/html-capture-abutting-attributes')
+C16_html_capture_nul_in_text = _sig('C16/html-capture-nul-in-text')
